@@ -256,6 +256,10 @@ type keyRef struct {
 	CtxName string `json:"context"`
 	Ctx     string `json:"context_hex"`
 	CtxNil  bool   `json:"context_nil"`
+	// BKObj: how the blinding key OBJECT is built from its bytes: "" on the operation's own curve,
+	// "other-curve" with CreateKey on another curve, "bare" as &PrivateKey{D: ...} without curve or
+	// public part. Only its scalar bytes enter the blinding factor; the curve is the operation's.
+	BKObj string `json:"blind_key_object,omitempty"`
 }
 
 func (k keyRef) label() string {
@@ -314,6 +318,15 @@ func (k keyRef) materialise() (*mat, *mc.Viol) {
 	m.pkX, m.pkY = ci.C.ScalarBaseMult(m.dS.Bytes())
 	if m.skS.D.Cmp(m.dS) != 0 || m.skS.X.Cmp(m.pkX) != 0 || m.skS.Y.Cmp(m.pkY) != 0 {
 		return nil, &mc.Viol{Sig: ci.Name + ": CreateKey does not give (OS2IP(bytes), D*G)", What: fmt.Sprintf("signing key bytes %x", skb)}
+	}
+	switch k.BKObj {
+	case "other-curve":
+		oc := curveByName(map[string]string{"P-224": "P-256", "P-256": "P-384", "P-384": "P-521", "P-521": "P-224"}[ci.Name])
+		if m.skB, v = createKey(oc, bkb); v != nil {
+			return nil, v
+		}
+	case "bare":
+		m.skB = &ecdsa.PrivateKey{D: new(big.Int).SetBytes(bkb)}
 	}
 	if m.skB.D.Cmp(m.dB) != 0 {
 		return nil, &mc.Viol{Sig: ci.Name + ": CreateKey does not give (OS2IP(bytes), D*G)", What: fmt.Sprintf("blind key bytes %x: D=%x", bkb, m.skB.D)}
@@ -764,6 +777,41 @@ func main() {
 			r.Sample(map[string]any{"kind": "key", "case": k})
 		}
 	})
+
+	// ---- phase 1b: the blinding key as an object built for another curve, or without any curve ----
+	{
+		var ks []keyRef
+		for i, c := range kcs {
+			if i%7 != 0 && c.bi > 1 {
+				continue
+			}
+			for _, obj := range []string{"other-curve", "bare"} {
+				k := mkRef(c.u.ci, c.u.sks[c.si], c.u.bks[c.bi], ctxs[c.ci])
+				k.BKObj = obj
+				ks = append(ks, k)
+			}
+		}
+		r.Par(len(ks), func(i int) {
+			k := ks[i]
+			_, _, v := checkKey(k)
+			out := "key: blinded key = reference factor * pk, unblind inverts (blinding key object: " + k.BKObj + ")"
+			if v != nil {
+				out = v.Sig
+				r.Violation("key", k, v)
+			}
+			r.Case("key|"+k.label()+"|"+k.BKObj, true, out)
+			if i%5 == 0 {
+				p := signP{keyRef: k, DLen: 32, Seed: r.Seed}
+				p.Digest = hex.EncodeToString(mc.Fill(r.Seed, "c12-digest-32", 32))
+				out, v := checkSign(p)
+				if v != nil {
+					out = v.Sig
+					r.Violation("sign", p, v)
+				}
+				r.Case("sign|"+p.label()+"|"+k.BKObj, true, out)
+			}
+		})
+	}
 
 	// ---- phase 2: signatures ----
 	type sc struct {
